@@ -42,6 +42,15 @@ def make(rng, sid, hist):
     s.add("RF", 0, h(rel), h(delim), h(comment))
     s.add("RAW", 0); s.add("RAWL", 0); s.add("DUMPX", 0)
     s.add("PATH", 0)
+    if cd:
+        # the application changes its working directory after the read (as a daemon does): the object still names the
+        # file it was read from, also when the new directory has a file of the same relative name
+        s.file(b"/elsewhere/doc.conf", b"other=1\n")
+        s.file(b"/elsewhere/app/doc.conf", b"other=2\n")
+        s.add("CD", h(b"/elsewhere"))
+        s.add("PATH", 0)
+        s.add("DUMPX", 0)
+        s.meta["moved"] = True
     # merged result: empty path
     s.file(b"/o.conf", b"zz=1\n")
     s.add("RF", 1, h(b"/o.conf"), h(b"="), h(b"#"))
@@ -81,6 +90,13 @@ def oracle(s, lines):
     paths = [l for l in lines if l.startswith("path ")]
     if len(paths) < 2 or paths[0] != "path " + h(PATH):
         return "path query %r, expected %r (file named %s)" % (paths[:1], PATH, s.meta["way"])
+    if s.meta.get("moved"):
+        if paths[1] != "path " + h(PATH):
+            return "path query after chdir %r, expected %r (file named %s)" % (paths[1], PATH, s.meta["way"])
+        files = [x for l in lines if l.startswith("ext E0") for x in l.split() if x.startswith("file=")]
+        if any(x != "file=" + h(PATH) for x in files):
+            return "extended value after chdir names the file %r, expected %r" % (sorted(set(files)), PATH)
+        paths = [paths[0]] + paths[2:]
     if paths[1] != "path h":
         return "a merged result reports the path %r" % paths[1]
     if "layered" in s.meta:
